@@ -407,9 +407,10 @@ BOTTOM = AV("bottom")
 class Interp:
     MAX_DEPTH = 40
 
-    def __init__(self, program, domain):
+    def __init__(self, program, domain, assume=None):
         self.p = program
         self.dom = domain
+        self.assume = dict(assume or {})  # normalised test text -> bool (mode scenarios)
         self.memo = {}
         self.active = []
         self.frame = None
@@ -702,6 +703,8 @@ class Interp:
         t = self.eval(st.test, env)
         self.dom.on_branch(self, t, st)
         decided = _truth(t)
+        if decided is None and self.assume:
+            decided = self._assumed(st.test)
         frame = self.frame
         envs = []
         n0 = len(frame.pc)
@@ -737,6 +740,21 @@ class Interp:
                     frame.pc.append((st.test, True))
             return envs[0], False
         return join_env(self.dom, envs[0], envs[1]), False
+
+    def _assumed(self, test):
+        if isinstance(test, ast.UnaryOp) and isinstance(test.op, ast.Not):
+            v = self._assumed(test.operand)
+            return None if v is None else (not v)
+        if isinstance(test, ast.BoolOp):
+            vals = [self._assumed(v) for v in test.values]
+            if isinstance(test.op, ast.And):
+                if any(v is False for v in vals):
+                    return False
+                return True if all(v is True for v in vals) else None
+            if any(v is True for v in vals):
+                return True
+            return False if all(v is False for v in vals) else None
+        return self.assume.get(norm_text(test))
 
     def _refine(self, test, polarity, env):
         """Refine None-ness of simple names from `x is None` / `x is not None` / `not x`."""
